@@ -553,3 +553,4 @@ def run(ctx, rep):
     r03j(ctx, rep, cr)
     import c13
     c13.r13d(ctx, rep, cr)   # the decision never changes afterwards: no phase regression behind a logged decision
+    c13.r13h(ctx, rep, cr)   # … and the logged decision is in memory before any return
